@@ -31,6 +31,8 @@ pub fn write_cache(src: &[u8]) -> Result<Vec<u8>, String> {
 }
 
 pub const HANDLES: &[&str] = &["mapper", "mapperp", "cache"];
+/// further ways to obtain a handle: the From impls, clones
+pub const EXTRA_HANDLES: &[&str] = &["mapper_from", "mapperp_from", "mapper_from_false", "mapperp_clone", "cache_clone"];
 
 pub enum Handle<'a> {
     Mapper(ProguardMapper<'a>),
@@ -171,6 +173,29 @@ pub fn with_handle<T>(name: &str, src: &[u8], f: impl FnOnce(&Handle<'_>) -> T) 
             let buf = Aligned::new(&bytes);
             let cache = ProguardCache::parse(buf.bytes()).map_err(|e| format!("parse error: {e}"))?;
             Ok(f(&Handle::Cache(cache)))
+        }
+        "cache_clone" => {
+            let bytes = write_cache(src)?;
+            let buf = Aligned::new(&bytes);
+            let cache = ProguardCache::parse(buf.bytes()).map_err(|e| format!("parse error: {e}"))?;
+            let c2 = cache.clone();
+            drop(cache);
+            Ok(f(&Handle::Cache(c2)))
+        }
+        "mapperp_clone" => {
+            let m = ProguardMapper::new_with_param_mapping(ProguardMapping::new(src), true);
+            let m2 = m.clone();
+            drop(m);
+            Ok(f(&Handle::Mapper(m2)))
+        }
+        "mapper_from" | "mapperp_from" | "mapper_from_false" => {
+            let text = std::str::from_utf8(src).map_err(|_| "not utf-8".to_string())?;
+            let m = match name {
+                "mapper_from" => ProguardMapper::from(text),
+                "mapperp_from" => ProguardMapper::from((text, true)),
+                _ => ProguardMapper::from((text, false)),
+            };
+            Ok(f(&Handle::Mapper(m)))
         }
         _ => panic!("unknown handle"),
     }
